@@ -76,6 +76,7 @@
 #include "token_pairs.h"
 #include "writer.h"
 #include "version.h"
+#include "zip.h"
 #include "verif_hooks.h"
 
 
@@ -2906,6 +2907,7 @@ void mmd_d_string_convert_to_file(DString * source, unsigned long extensions, sh
 /// multiple documents (e.g. EPUB)
 void mmd_engine_convert_to_file(mmd_engine * e, short format, const char * directory, const char * filepath) {
 	FILE * output_stream;
+	DString * result;
 
 	DString * output = d_string_new("");
 
@@ -2921,11 +2923,38 @@ void mmd_engine_convert_to_file(mmd_engine * e, short format, const char * direc
 			break;
 
 		case FORMAT_TEXTBUNDLE:
-			// TODO: Need to implement this
+			// Unpack the bundle into a directory, as the command line tool does
+			result = textbundle_create(output, e, directory);
+			unzip_data_to_path(result->str, result->currentStringLength, filepath);
+			d_string_free(result, true);
 			break;
 
 		case FORMAT_TEXTBUNDLE_COMPRESSED:
 			textbundle_write_wrapper(filepath, output, e, directory);
+			break;
+
+		case FORMAT_ODT:
+		case FORMAT_FODT:
+		case FORMAT_ITMZ:
+
+			// These need their wrapper/package, exactly as mmd_engine_convert_to_data() builds it
+			if (format == FORMAT_ODT) {
+				result = opendocument_text_create(output, e, directory);
+			} else if (format == FORMAT_FODT) {
+				result = opendocument_flat_text_create(output, e, directory);
+			} else {
+				result = itmz_create(output, e, directory);
+			}
+
+			if (!(output_stream = fopen(filepath, "wb"))) {
+				// Failed to open file
+				perror(filepath);
+			} else {
+				fwrite(result->str, result->currentStringLength, 1, output_stream);
+				fclose(output_stream);
+			}
+
+			d_string_free(result, true);
 			break;
 
 		default:
